@@ -159,3 +159,101 @@ func mutateBytes(r *hlib.Rand, src string) (string, string) {
 		return string(b[:i]), "byte-truncate"
 	}
 }
+
+// ---- stream 8: expressions on their own, through parse.ParseExpr (the
+// parser's second entry point) — and, as the body of a statement, through
+// the whole pipeline.
+
+func genExprText(r *hlib.Rand, depth int) string {
+	leaf := func() string {
+		switch r.Intn(8) {
+		case 0:
+			return pick(r, interestingNumbers)
+		case 1:
+			return pick(r, interestingStrings)
+		case 2:
+			return "true"
+		case 3:
+			return "args." + pick(r, []string{"x", "n", "src"})
+		case 4:
+			return "this." + pick(r, []string{"val", "arr", "tab"})
+		default:
+			return pick(r, []string{"i", "c", "p", "this", "args", "x", "base"})
+		}
+	}
+	if depth <= 0 {
+		return leaf()
+	}
+	sub := func() string { return genExprText(r, depth-1-r.Intn(2)) }
+	unary := []string{"+", "-", "not "}
+	binary := []string{"+", "-", "*", "/", "<<", ">>", "&", "|", "^", "%", "~mod+", "~mod-", "~mod*", "~mod<<", "~sat+", "~sat-", "<>", "<", "<=", "==", ">=", ">", "and", "or"}
+	assoc := []string{"+", "*", "&", "|", "^", "and", "or"}
+	types := []string{"base.u8", "base.u32", "base.u32[..= 7]", "base.u64[1 ..= 2]", "slice base.u8", "array[4] base.u8", "ptr foo", "nptr foo", "roslice base.u8", "table base.u16", "foo"}
+	switch r.Intn(12) {
+	case 0:
+		return leaf()
+	case 1:
+		return pick(r, unary) + sub()
+	case 2:
+		return sub() + " " + pick(r, binary) + " " + sub()
+	case 3:
+		op := pick(r, assoc)
+		n := 2 + r.Intn(4)
+		parts := make([]string, n)
+		for i := range parts {
+			parts[i] = sub()
+		}
+		return strings.Join(parts, " "+op+" ")
+	case 4:
+		return "(" + sub() + ")"
+	case 5:
+		return sub() + " as " + pick(r, types)
+	case 6: // call
+		args := []string(nil)
+		for i, n := 0, r.Intn(3); i < n; i++ {
+			args = append(args, pick(r, []string{"a", "x", "src", "up_to", "n"})+": "+sub())
+		}
+		return leaf() + "." + pick(r, []string{"get", "min", "max", "length", "read_u8", "up"}) + pick(r, []string{"", "!", "?"}) + "(" + strings.Join(args, ", ") + ")"
+	case 7: // index
+		return leaf() + "[" + sub() + "]"
+	case 8: // slice
+		switch r.Intn(4) {
+		case 0:
+			return leaf() + "[..]"
+		case 1:
+			return leaf() + "[" + sub() + " ..]"
+		case 2:
+			return leaf() + "[.. " + sub() + "]"
+		default:
+			return leaf() + "[" + sub() + " .. " + sub() + "]"
+		}
+	case 9: // selector chain, possibly with a status literal
+		if r.Chance(1, 4) {
+			return "base." + pick(r, []string{`"#bad"`, `"$short read"`, `"@note"`})
+		}
+		return leaf() + "." + pick(r, []string{"val", "x", "y"}) + "." + pick(r, []string{"val", "x", "y"})
+	case 10: // postfix chain of random links
+		s := leaf()
+		for i, n := 0, 1+r.Intn(5); i < n; i++ {
+			s += pick(r, []string{".val", "[0]", "[..]", "()", "!()", "[1 .. 2]", "(a: 1)"})
+		}
+		return s
+	default:
+		return "(" + sub() + ") " + pick(r, binary) + " (" + sub() + ")"
+	}
+}
+
+func genExprCase(r *hlib.Rand) *Case {
+	e := genExprText(r, r.Intn(5))
+	label := "expr"
+	if r.Chance(1, 3) {
+		e, label = mutate(r, e)
+		label = "expr:" + label
+	}
+	if r.Chance(2, 3) {
+		c := singleFile(label, e) // the expression is the whole file: parse.ParseExpr
+		c.Expr = true
+		return c
+	}
+	return singleFile(label, inPlain("    i = "+e)) // … a statement: the whole pipeline
+}
